@@ -44,11 +44,11 @@ TEXT.update({
            TRACE_TECH + "clauses C01_*", "4/C01"),
  "C02": _t("TLC evaluates C02_TrueFitness (stored fitness = pure re-evaluation of the stored genome, or the cutoff sentinel after a refusal) on every recorded generation, best individual and seed, and C02_HistoryAppendOnly (digest of the first n generations at a later snapshot = digest recorded when there were n) between all consecutive boundary snapshots.",
            TRACE_TECH + "clauses C02_*", "4/C02"),
- "C03": _t("HMS.tla advances its per-deme evaluation counters with the recorder's ground-truth call batches; at every stop-condition consult TLC compares them with the counters the tree reports (per deme, per level against one recorder stream per level, tree total = sum), guarded by 'no refusal yet'. Design model: total = sum over levels in every state; evaluation budget (forwarded / refused requests) with C03_BudgetHard, C03_TotalEqualsCalls, C03_RequestsSplit as invariants over the configurations minimize(maxfun=N) builds, N in 1..9, and reachability witnesses (a budget runs out, a budget cuts a batch). Corpus includes objectives that themselves return the worst infinity (real evaluations that look like refusals) and one objective per level (multi-fidelity, with and without memoising problems).",
+ "C03": _t("HMS.tla advances its per-deme evaluation counters with the recorder's ground-truth call batches; at every stop-condition consult TLC compares them with the counters the tree reports (per deme, per level against one recorder stream per level, tree total = sum), guarded by 'no refusal yet'. Design model: total = sum over levels in every state; evaluation budget (forwarded / refused requests) with C03_BudgetHard, C03_TotalEqualsCalls, C03_RequestsSplit as invariants over the configurations minimize(maxfun=N) builds, N in 1..9, and reachability witnesses (a budget runs out, a budget cuts a batch). Corpus includes objectives that themselves return the worst infinity (real evaluations that look like refusals), one objective per level (multi-fidelity, with and without memoising problems), pickled and deep-copied checkpoints that are run on. RunAPI.tla: reported total = number of objective calls for unwrapped runs of run() / hms().",
            "TLC design model (HMSModel.tla) + " + TRACE_TECH + "clauses C03_*", "4/C03"),
  "C04": _t("At every boundary snapshot TLC checks that the reported tree / deme best has the minimum goodness rank of all generations logged so far and is one of them, that it never gets worse, and (no local level, no refusal) equals the best rank the recorder ever returned.",
            TRACE_TECH + "clauses C04_*", "4/C04"),
- "C05": _t("Design model: TLC explores every position at which a scripted or shipped global stop condition can first turn true (after any generation of any deme, post-metaepoch, loop head) and checks done=>gsc, counter = metaepochs performed (exactly n / 0), no sprout after gsc, wind-down <= 1 iteration per deme. Every maximal corner is replayed on the real code by TLC-generated scripts; every recorded run is validated against the same operators, shipped conditions' verdicts are recomputed by the spec.",
+ "C05": _t("Design model: TLC explores every position at which a scripted or shipped global stop condition can first turn true (after any generation of any deme, post-metaepoch, loop head) and checks done=>gsc, counter = metaepochs performed (exactly n / 0), no sprout after gsc, wind-down <= 1 iteration per deme. Every maximal corner is replayed on the real code by TLC-generated scripts; every recorded run is validated against the same operators, shipped conditions' verdicts are recomputed by the spec. RunAPI.tla adds black-box runs of DemeTree.run() / hms() with unwrapped library objects (shipped conditions, user conditions derived from shipped classes that log their own consults): nothing happens under a metaepoch counter larger than the one at which the condition first answered TRUE; evaluation limits are reached at the final boundary and not at the one before.",
            "TLC design model (HMSModel.tla, exhaustive for small constants) + TLC-generated scenario scripts replayed on pyhms + " + TRACE_TECH + "clauses C05_*", "4/C05"),
  "C06": _t("Design model invariants / action properties (stepped exactly once, newborn runs next metaepoch, stop causes, inactive frozen) over all scripted LSC firings; traces: the model predicts active flag, metaepoch and generation counts of every deme at every consult from the verdicts and call batches, TLC compares with the projection of the real tree (shipped LSC verdicts recomputed by the spec).",
            "TLC design model + scenario scripts + " + TRACE_TECH + "clauses C06_*", "4/C06"),
